@@ -205,6 +205,13 @@ def apply_fn(F, bld, fop, arg_places, dest, target, unwind, sp, depth, stack):
         return bld.block([assign(dest, variant(adt, vname, idx, [mv(arg_places[0])]), sp)], {"t": "goto", "target": target, "sp": sp, "exp": False})
     cl = closure_of(F, bld, fop)
     if cl is None:
+        k = fop.get("k")
+        if k and "fn" in k and isinstance(k["fn"], str):
+            # a plain function passed by name (`.map_err(other_error)`): call it
+            name = k["fn"]
+            callee = {"def": name, "args": [], "local": name in F.bodies, "krate": "?", "unsafe": False, "res": {"def": name, "is_item": True, "local": name in F.bodies}, "synthetic": True}
+            return bld.block([], {"t": "call", "callee": callee, "args": [mv(a) for a in arg_places], "arg_tys": ["?"] * len(arg_places), "dest": dest, "dest_ty": "?",
+                                  "target": target, "unwind": unwind, "fn_span": sp, "sp": sp, "exp": False})
         return None
     cdef, clocal = cl
     if cdef in stack or depth >= MAX_DEPTH:
